@@ -128,6 +128,12 @@ BDD_MUTS = {
 }
 
 CTLS_MUTS = {
+ 'ctls_no_clone': ('CTLS/model_checking.py', "        kripkeC = kripke.clone()\n", "        kripkeC = kripke\n", ['CTLS.modelcheck']),
+ 'ctls_returns_S0': ('CTLS/model_checking.py', "        return CTL.modelcheck(kripkeC, CTL_frml)", "        CTL.modelcheck(kripkeC, CTL_frml)\n        return kripke.S0", ['CTLS.modelcheck']),
+ 'ctls_label_into_next': ('CTLS/model_checking.py', "            kripke.labels(s).add(f_atom)", "            kripke.next(s).add(f_atom)", ['_remove_state_subformulas']),
+ 'ctls_label_into_S0': ('CTLS/model_checking.py', "            kripke.labels(s).add(f_atom)", "            kripke.labels(s).add(f_atom)\n            kripke.S0.add(s)", ['_remove_state_subformulas']),
+ 'ctls_label_all': ('CTLS/model_checking.py', "            kripke.labels(s).add(f_atom)", "            kripke.labels().add(f_atom)\n            kripke.labels(f_atom).add(f_atom)", ['_remove_state_subformulas']),
+ 'ctls_quantified_no_index': ('CTLS/model_checking.py', "    subformula = _remove_state_subformulas(kripke, formula.subformula(0),\n", "    subformula = _remove_state_subformulas(kripke, formula.subformula(1),\n", ['_checkQuantifiedFormula']),
  'fresh_label_unconditional': ('CTLS/model_checking.py', "    while f_atom in atoms:\n        f_atom = '[{}({})]'.format(f_str, i)\n        i += 1\n", "", ['_get_a_new_atomic_proposition_for']),
  'fresh_label_wrong_test': ('CTLS/model_checking.py', "    while f_atom in atoms:", "    while f_str in atoms and i < 1:", ['_get_a_new_atomic_proposition_for']),
 }
@@ -146,7 +152,7 @@ PARSER_MUTS = {
  'parser_args_swapped': ('parser.py', "        raise ex_class(string, pos)", "        raise ex_class(pos, string)", ['Parser.__call__']),
 }
 
-BY_PROPERTY = {'C13': [GRAPH_MUTS], 'C14': [KRIPKE_MUTS], 'C01': [CTL_MUTS], 'C05': [REWRITE_MUTS], 'C16': [BDD_MUTS], 'C03': [CTLS_MUTS], 'C02': [LTL_MUTS], 'C10': [PARSER_MUTS]}
+BY_PROPERTY = {'C13': [GRAPH_MUTS], 'C14': [KRIPKE_MUTS], 'C01': [CTL_MUTS], 'C05': [REWRITE_MUTS], 'C16': [BDD_MUTS], 'C03': [CTLS_MUTS], 'C07': [CTLS_MUTS], 'C02': [LTL_MUTS], 'C10': [PARSER_MUTS]}
 # equivalent mutants (the change does not alter behaviour) are excluded from the requirement
 EQUIVALENT = {'sub_S0_all'}
 
